@@ -68,6 +68,8 @@ def timelines(draw, max_events=4, span=None):
         "delays": delays,
         "warps": warps,
         "offset": draw(offset_value),
+        # where the timing data comes from: SSC simfile, SM simfile, SM simfile with the FREEZES spelling, SSC chart
+        "source": draw(st.sampled_from(["ssc", "ssc", "ssc", "ssc", "sm", "sm-freezes", "sm-freezes", "ssc-chart"])),
     }
 
 
@@ -97,6 +99,9 @@ def _events():
 EVENTS = _events()
 
 
+_SOURCES = ("ssc", "sm-freezes", "ssc-chart", "sm")
+
+
 def placement_timeline(combo):
     tl = {"bpms": [[0, "120"]], "stops": [], "delays": [], "warps": [], "offset": "0.125"}
     for kind, k in combo:
@@ -116,13 +121,17 @@ def placement_timeline(combo):
 
 
 def placements(max_events):
-    """every set of up to max_events events (at most one warp per beat), as timelines"""
+    """every set of up to max_events events (at most one warp per beat), as timelines; the source kind rotates"""
+    _count = 0
     for n in range(max_events + 1):
         for combo in itertools.combinations(EVENTS, n):
             wb = [k for kind, k in combo if kind.startswith("warp")]
             if len(wb) != len(set(wb)):
                 continue
-            yield placement_timeline(combo)
+            tl = placement_timeline(combo)
+            tl["source"] = _SOURCES[_count % 4]
+            _count += 1
+            yield tl
 
 
 def placements_iter(max_events, shard, nshards):
